@@ -83,6 +83,9 @@ GOALS = [
     ({'P': "'a => bool", 'Q': "'a => bool"}, '(?x. P x) & (?y. Q y) --> (?x. ?y. P x & Q y)'),
     ({'P': "'a => bool", 'Q': "'a => bool"}, '(!x. P x) & (!x. Q x) --> (!x. P x & Q x)'),
     ({'P': "'a => bool", 'A': 'bool'}, '(?x. P x --> A) --> (!x. P x) --> A'),
+    ({'A': 'bool', 'B': 'bool', 'C': 'bool'}, 'A & B --> C --> B'),
+    ({'A': 'bool', 'B': 'bool', 'C': 'bool'}, 'A & B --> (C --> A) & (C --> B)'),
+    ({'A': 'bool', 'B': 'bool', 'C': 'bool', 'D': 'bool'}, 'B & A --> (C --> B) --> D --> B'),
 ]
 
 
